@@ -491,3 +491,25 @@ pub fn per_type_try_read<T: Borrow<[u8]>, R: Reader<T>>(attr: u16, r: &mut R) ->
     };
     Some(a.map(|x| from_crate(&x)))
 }
+
+/// encode a message into a writer that already holds `prefix`; returns only the octets appended
+/// (whether the prefix itself stays intact is C09's business)
+pub fn crate_encode_msg_after(m: &SMsg, prefix: &[u8]) -> Caught<Vec<u8>> {
+    guard(|| {
+        let cm = to_crate_msg(m);
+        let mut w = rl2tp::common::VecWriter::new();
+        w.data = prefix.to_vec();
+        cm.write(&mut w);
+        w.data.split_off(prefix.len().min(w.data.len()))
+    })
+}
+
+pub fn crate_encode_avp_after(a: &SAvp, prefix: &[u8]) -> Caught<Vec<u8>> {
+    guard(|| {
+        let ca = to_crate(a);
+        let mut w = rl2tp::common::VecWriter::new();
+        w.data = prefix.to_vec();
+        ca.write(&mut w);
+        w.data.split_off(prefix.len().min(w.data.len()))
+    })
+}
